@@ -211,6 +211,7 @@ theorem queryByIntervalGuids_identity (src : Source) (kinds : List Kind) (ids : 
     (h : queryByIntervalGuids src kinds ids = .ok r) :
     ∀ rc ∈ r.children, ∃ c ∈ src.children, ReducedMember ids rc c := by
   unfold queryByIntervalGuids at h
+  obtain ⟨_, _, h⟩ := bind_ok h
   obtain ⟨kept, hkept, h⟩ := bind_ok h
   have hk : ∀ c' ∈ kept, ∃ c ∈ src.children, c'.guid = c.guid ∧ c'.kind = c.kind ∧ c'.idents = c.idents ∧
       ChildHull c' ∧ ∀ x ∈ c'.gcs, x ∈ c.gcs ∧ x.guid ∈ ids := by
